@@ -117,13 +117,13 @@ func (c *c10Client) DiscoverModels(ctx context.Context, ep *domain.Endpoint) ([]
 	return nil, errors.New("no script")
 }
 func (c *c10Client) HealthCheck(ctx context.Context, ep *domain.Endpoint) error { return nil }
-func (c *c10Client) GetMetrics() discovery.DiscoveryMetrics                    { return discovery.DiscoveryMetrics{} }
+func (c *c10Client) GetMetrics() discovery.DiscoveryMetrics                     { return discovery.DiscoveryMetrics{} }
 
 type noRepo struct{}
 
-func (noRepo) GetAll(ctx context.Context) ([]*domain.Endpoint, error)      { return nil, nil }
-func (noRepo) GetRoutable(ctx context.Context) ([]*domain.Endpoint, error) { return nil, nil }
-func (noRepo) GetHealthy(ctx context.Context) ([]*domain.Endpoint, error)  { return nil, nil }
+func (noRepo) GetAll(ctx context.Context) ([]*domain.Endpoint, error)       { return nil, nil }
+func (noRepo) GetRoutable(ctx context.Context) ([]*domain.Endpoint, error)  { return nil, nil }
+func (noRepo) GetHealthy(ctx context.Context) ([]*domain.Endpoint, error)   { return nil, nil }
 func (noRepo) UpdateEndpoint(ctx context.Context, e *domain.Endpoint) error { return nil }
 func (noRepo) Exists(ctx context.Context, u *url.URL) bool                  { return true }
 
